@@ -6,6 +6,7 @@ import (
 	"go/token"
 	"go/types"
 	"sort"
+	"strconv"
 	"strings"
 
 	"golang.org/x/tools/go/ssa"
@@ -524,7 +525,7 @@ func rulesExtract(p *Prog, r *Report, eng *Engine) {
 					}
 				case *ssa.Call:
 					callee := t.Call.StaticCallee()
-					if callee != nil && p.InModule(callee) && len(callee.Blocks) > 0 && isStringType(t.Type()) && depth < 3 && !helpers[callee] &&
+					if callee != nil && p.InModule(callee) && len(callee.Blocks) > 0 && (isStringType(t.Type()) || takesTextBuilder(callee)) && depth < 3 && !helpers[callee] &&
 						!(isNodeMethod(callee, nodeType(p)) && len(t.Call.Args) == 1 && t.Call.Args[0] == pr.Params[0]) {
 						// a helper that renders a part of the text (n.lic.reconstructedString()): its parts are the
 						// printer's parts, with its parameters bound to what the printer passes
@@ -570,6 +571,15 @@ func rulesExtract(p *Prog, r *Report, eng *Engine) {
 					if s, ok := constString(op); ok {
 						consts[s] = tp.pos
 						continue
+					}
+					// a separator handed to a rendering helper as a constant argument
+					if prm, isPrm := op.(*ssa.Parameter); isPrm {
+						if d, ok := qz.elemVar[prm]; ok && strings.HasPrefix(d, "\"") {
+							if s, err := strconv.Unquote(d); err == nil {
+								consts[s] = tp.pos
+								continue
+							}
+						}
 					}
 					if _, isBin := op.(*ssa.BinOp); isBin {
 						continue
@@ -839,4 +849,15 @@ func fusedFirstOccurrences(fb *fnBounds, al appendLoop, elem ssa.Value) string {
 		}
 	}
 	return ""
+}
+
+// takesTextBuilder: fn is handed a *strings.Builder / *bytes.Buffer to write its part of a text into.
+func takesTextBuilder(fn *ssa.Function) bool {
+	for _, prm := range fn.Params {
+		switch prm.Type().String() {
+		case "*strings.Builder", "*bytes.Buffer":
+			return true
+		}
+	}
+	return false
 }
